@@ -266,6 +266,9 @@ func (s *Server) DidClose(ctx context.Context, params *protocol.DidCloseTextDocu
 		if path := uriToPath(params.TextDocument.URI); path != "" {
 			if data, err := os.ReadFile(path); err == nil {
 				s.workspace.UpdateFile(path, string(data))
+			} else {
+				// never saved: nothing of the discarded buffer stays
+				s.workspace.RemoveFile(path)
 			}
 			s.loader.InvalidateFile(path)
 		}
